@@ -45,7 +45,15 @@ def replay(chk: Check, cases, tier):
             arr = geom.make_array(kind, els, aff, subtype)
             desc = repr([geom.to_py(kind, e, aff) if not integer else geom._to_int(geom.to_py(kind, e, aff)) for e in els])
             n = len(els)
-            for name, darr, pos in M.derivations(arr, n, rng):
+            ders = list(M.derivations(arr, n, rng))
+            if n >= 2:
+                # histories in which a piece of the array has ALREADY been oriented before it is combined with raw data
+                k = max(1, n // 3)
+                cls_ = type(arr)
+                ders.append(("concat(oriented(head), raw tail)", cls_._concat_same_type([arr[:k].oriented(), arr[k:]]), list(range(n))))
+                ders.append(("concat(raw tail, oriented(head))", cls_._concat_same_type([arr[k:], arr[:k].oriented()]), list(range(k, n)) + list(range(k))))
+                ders.append(("concat(oriented(head).copy(), raw tail)[::-1]", cls_._concat_same_type([arr[:k].oriented().copy(), arr[k:]])[::-1], list(range(n - 1, -1, -1))))
+            for name, darr, pos in ders:
                 before = darr.data.to_pylist()
                 o = darr.oriented()
                 chk.count(len(pos))
